@@ -107,14 +107,14 @@ def correspondence(ctx):
     core.assert_repo_loaded()
     # corpus (D64 and D10 witnesses) first, then generated cases, in one batch
     res = sched.explore(ctx, [dict(c) for c in CORPUS]
-                        + gen_cases(ctx.rng, ctx.pick(14, 100), ["failslast", "failslast", "random", "greedy", "lazy"]),
+                        + gen_cases(ctx.rng, ctx.pick(14, 70), ["failslast", "failslast", "random", "greedy", "lazy"]),
                         spec, "C14 failure isolation")
     forced = [bool((o.get("race") or {}).get("forced")) for (c, o, _, _, _) in res if c.get("race")]
     ctx.extra["intra_poll_races_forced"] = sum(forced)
     if not all(forced):
         ctx.tie_broken.append({"kind": "race-not-forced", "detail": "the load_result gate did not produce the interleaving of the D64 witness"})
     if not ctx.quick:
-        sched.explore(ctx, exhaustive_fail_sets(ctx.rng, 8), spec, "C14 all fail sets")
+        sched.explore(ctx, exhaustive_fail_sets(ctx.rng, 5), spec, "C14 all fail sets")
 
 
 def search(ctx):
